@@ -502,11 +502,13 @@ def rr_logical_tree(im, root):
                 walk(rr.cl, p, extent, depth + 1)
             elif r.isdir:
                 if name == b'rr_moved' and path == b'':
-                    # the holding area: its children are relocated directories (all RE)
+                    # the holding area: relocated directories (marked RE) are not entries of it.  A directory that holds nothing
+                    # else is the pure holding area and not part of the user's tree; one that also has entries of its own (the
+                    # user made a directory of that name) is shown with those.
                     sub, _ = dir_records(r.extent)
-                    if any(not (rock_ridge(im, s, 0).re) for s in sub if s.name not in (b'\x00', b'\x01')):
-                        im.bad('RR_MOVED holds an entry that is not marked RE')
-                    continue
+                    own = [s for s in sub if s.name not in (b'\x00', b'\x01')]
+                    if own and all(rock_ridge(im, s, 0).re for s in own):
+                        continue
                 walk(r.extent, p, extent, depth + 1)
             else:
                 kind = 'symlink' if rr.symlink is not None else 'file'
